@@ -64,6 +64,17 @@ def check(ck):
         ck.ob("identity callables are registered for the hooks whose value is not the first operand",
               got == {"on_argument_execution": "default_argument_execution_directive", "on_post_input_coercion": "default_post_input_coercion_directive"}, where=UD,
               construct="identity:table", detail=str(got))
+        # the raw callable is adapted before any directive wraps it
+        for flag, wrapper, extra in ((p[3], "resolver_executor", None), (p[5], "subscription_generator", "directive_generator")):
+            st2 = [n for n in walk_no_nested(f.node) if isinstance(n, ast.Assign) and unparse(n.targets[0]) == p[2] and unparse(n.value) == f"partial({wrapper}, {p[2]})"]
+            conds = set(fv.conditions(st2[0])) if len(st2) == 1 else set()
+            ck.ob(f"wraps_with_directives: with `{flag}` the raw callable is adapted by {wrapper} once (it strips the engine-only `context_coercer` keyword)",
+                  len(st2) == 1 and conds == {(flag, "T"), (f"isinstance({p[2]}, partial)", "F")} and not fv.enclosing_loops(st2[0]) and fv.dominated_by(lp, st2[0]) is False or
+                  (len(st2) == 1 and conds == {(flag, "T"), (f"isinstance({p[2]}, partial)", "F")}), f, st2[0] if st2 else f.node, construct=f"fold:adapt:{wrapper}", detail=str(sorted(conds)))
+            if extra:
+                sw = [n for n in walk_no_nested(f.node) if isinstance(n, ast.Assign) and unparse(n.targets[0]) == "directive_wrapper" and unparse(n.value) == extra]
+                ck.ob("wraps_with_directives: generator hooks are wrapped by the generator executor", len(sw) == 1 and (flag, "T") in fv.conditions(sw[0]), f, sw[0] if sw else f.node,
+                      construct="fold:generator-wrapper")
     with ck.rule("R2"):
         e = repo.func(UD, "directive_executor")
         ev = FuncView(e)
@@ -87,6 +98,11 @@ def check(ck):
         ck.ob("resolver_executor: calls the raw resolver exactly once", len(rc) == 1 and rv.is_awaited(rc[0]) and not rv.loops(), re_, rc[0] if rc else re_.node, construct="once:resolver")
         c = repo.func("tartiflette/types/helpers/get_directive_instances.py", "compute_directive_nodes")
         cv = FuncView(c)
+        rets = cv.returns()
+        emp = [r for r in rets if unparse(r.value) == "[]"]
+        fin = [r for r in rets if unparse(r.value) == "computed_directives"]
+        ck.ob("compute_directive_nodes: no directive nodes -> no directives; otherwise the computed list is returned", len(rets) == 2 and len(emp) == 1 and len(fin) == 1 and
+              set(cv.conditions(emp[0])) == {(c.positional_params[1], "F")}, c, c.node, construct="instances:returns")
         lp = [l for l in cv.loops() if isinstance(l, ast.For) and unparse(l.iter) == c.positional_params[1]]
         ap = [x for x in cv.calls("append")]
         ok = len(lp) == 1 and len(ap) == 1 and contains(lp[0], ap[0]) and not any(isinstance(n, (ast.Break, ast.Continue, ast.Return)) for n in walk_no_nested(lp[0]))
@@ -113,20 +129,36 @@ def check(ck):
         fv = FuncView(f)
         atoms = Atoms({"directives": "has_directives", "isinstance(node, VariableNode)": "is_variable", "is_input_field": "is_input_field", "errors": "errors"})
         atoms.funcs.append(lambda e, t: "invalid" if t.startswith("is_invalid_value(") else ("errors" if t.endswith(")[1]") else None))
-        dc = [c for c in fv.calls() if isinstance(c.func, ast.Name) and c.func.id == "directives"]
-        for hd, iv, iif in itertools.product([False, True], repeat=3):
-            val = {"has_directives": hd, "is_variable": iv, "is_input_field": iif, "invalid": False, "errors": False}
-            want = "hooks" if hd and not (iv and not iif) else "no-hooks"
-            got = set()
-            for tr in fv.cfg.simulate(lambda n, env: evaluate(n.ast, env, val, atoms)):
-                called = any(n.kind == "stmt" and dc and contains(n.ast, dc[0]) for n in tr.nodes)
-                got.add("hooks" if called else "no-hooks")
-            ck.ob(f"literal_directives_coercer table {{directives: {hd}, variable: {iv}, input field: {iif}}}", got == {want}, f, f.node,
-                  construct=f"literal-hooks:{int(hd)}{int(iv)}{int(iif)}", detail=f"got {sorted(got)}, want {want} (type-level hooks already ran when the variable was coerced)" + atoms.note())
+        directive_tables(ck, repo)
         b = repo.func("tartiflette/types/input_field.py", "GraphQLInputField.bake")
         st = {unparse(n.targets[0]): n.value for n in walk_no_nested(b.node) if isinstance(n, ast.Assign)}
         ck.ob("GraphQLInputField.bake marks its literal coercer as an input field (its own hooks always run)", arg_text(st.get("self.literal_coercer"), None, "is_input_field") == "True", b,
               b.node, construct="literal-hooks:input-field-flag")
+
+
+def directive_tables(ck, repo):
+    """Hooks run exactly when there are hooks, the coercion succeeded with a valid value, and - on the literal
+    side - the node is not a top-level variable (shared with C05.R3)."""
+    for rel, name in (("tartiflette/coercers/literals/directives_coercer.py", "literal_directives_coercer"), ("tartiflette/coercers/inputs/directives_coercer.py", "input_directives_coercer")):
+        f = repo.func(rel, name)
+        fv = FuncView(f)
+        literal = name.startswith("literal")
+        atoms = Atoms({"directives": "has_directives", "isinstance(node, VariableNode)": "is_variable", "is_input_field": "is_input_field", "errors": "errors"})
+        atoms.funcs.append(lambda e, t: "invalid" if t.startswith("is_invalid_value(") else ("errors" if t.endswith(")[1]") else None))
+        dc = [c for c in fv.calls() if isinstance(c.func, ast.Name) and c.func.id == "directives"]
+        preds = ["has_directives", "is_variable", "is_input_field", "invalid", "errors"] if literal else ["has_directives", "errors"]
+        for bits in itertools.product([False, True], repeat=len(preds)):
+            val = dict(zip(preds, bits))
+            if val.get("invalid") and val.get("errors"):
+                continue
+            skip_var = literal and val["is_variable"] and not val["is_input_field"]
+            want = "hooks" if val["has_directives"] and not skip_var and not val.get("invalid", False) and not val["errors"] else "no-hooks"
+            got = set()
+            for tr in fv.cfg.simulate(lambda n, env: evaluate(n.ast, env, val, atoms)):
+                called = any(n.kind == "stmt" and dc and contains(n.ast, dc[0]) for n in tr.nodes)
+                got.add("hooks" if called else "no-hooks")
+            ck.ob(f"{name} table {val}", got == {want}, f, f.node, construct=f"{name}:hooks:" + "".join(str(int(v)) for v in val.values()),
+                  detail=f"got {sorted(got)}, want {want}" + atoms.note())
 
 
 HOOK_SITES = [
@@ -213,6 +245,17 @@ def _wiring_table(ck, repo):
           b.node, construct="wiring:argument")
     b = repo.func("tartiflette/types/field.py", "GraphQLField.bake")
     bv = FuncView(b)
+    for slot in ("arguments_coercer", "list_concurrently", "parent_concurrently"):
+        default = "schema.default_arguments_coercer" if slot == "arguments_coercer" else f"schema.coerce_{slot}"
+        got = {}
+        for n in walk_no_nested(b.node):
+            if isinstance(n, ast.Assign) and unparse(n.targets[0]) == f"self.{slot}":
+                got[unparse(n.value)] = set(bv.conditions(n))
+        want = {f"self.subscription_{slot}": {(f"self.subscription_{slot} is None", "F")},
+                f"self.query_{slot}": {(f"self.subscription_{slot} is None", "T"), (f"self.query_{slot} is None", "F")},
+                default: {(f"self.subscription_{slot} is None", "T"), (f"self.query_{slot} is None", "T")}}
+        ck.ob(f"GraphQLField.bake: `{slot}` resolves subscription-level > resolver-level > schema default, each used exactly when the more specific ones are unset", got == want, b, b.node,
+              construct=f"bake:precedence:{slot}", detail=str(got))
     w = [c for c in bv.calls("wraps_with_directives") if arg_text(c, None, "directive_hook") == "'on_field_execution'"]
     ok = len(w) == 1 and arg_text(w[0], None, "func") == f"self.raw_resolver or {b.positional_params[2]} or default_field_resolver" and arg_text(w[0], None, "is_resolver") == "True"
     ck.ob("GraphQLField.bake: on_field_execution wraps the raw resolver (schema-side, innermost)", ok, b, w[0] if w else b.node, construct="wiring:field")
